@@ -355,6 +355,11 @@ class Emitter:
                 visit(s[2], declared)
                 if s[3] is not None:
                     visit(s[3], declared)
+            elif k in ('decl', 'empty', 'return', 'throw'):
+                pass
+            else:
+                # a loop / other construct inside a translated `if`: its effect would be lost silently
+                raise TranslationError(f'unsupported statement `{k}` inside a translated conditional')
         declared = set()
         for s in stmts:
             if s[0] == 'decl' and isinstance(s[2], str):
@@ -485,6 +490,13 @@ class Emitter:
                 return f'if {c} then\n{_indent(a)}\nelse\n{_indent(b)}'
             mod = self.assigned([s])
             if not mod:
+                def _effectless(b):
+                    return b is None or all(t[0] in ('decl', 'empty') or
+                                            (t[0] == 'block' and _effectless(t)) for t in (b[1] if b[0] == 'block' else [b]))
+                if not (_effectless(th) and _effectless(el)):
+                    # e.g. a call or an update the emitter cannot see: never drop it silently
+                    raise TranslationError('conditional without a visible effect on any variable (calls / loops in its '
+                                           'body are not translated): ' + repr(s)[:160])
                 return self.stmts(rest, final)
             tup = lambda: ('(' + ', '.join(self.lookup(n)[0] for n in mod) + ')') if len(mod) > 1 \
                 else self.lookup(mod[0])[0]
